@@ -157,7 +157,11 @@ def run_bare(case, rng):
             pending[:] = nxt
             await ctx.tick()
 
-    simulate(Top({"dec": dec}), bench, mon)
+    top = Top({"dec": dec})
+    if rng.random() < 0.2:
+        top.unclocked = ("dec",)       # the decoder is purely combinational
+        mon.count("decoder_in_a_stopped_clock_domain")
+    simulate(top, bench, mon)
     mon.count("cycles", mon.cycle + 1)
     mon.bin("n_windows", len(wins))
     if any(e > t for _s, s, t, e in wins):
@@ -287,7 +291,11 @@ def run_diff(case, rng):
             await ctx.tick()
 
     subs_mods["flat"] = flat
-    simulate(Top(subs_mods), bench, mon)
+    top = Top(subs_mods)
+    if rng.random() < 0.2:
+        top.unclocked = tuple(k for k in subs_mods if k.startswith("dec"))     # decoders are purely combinational
+        mon.count("decoder_in_a_stopped_clock_domain")
+    simulate(top, bench, mon)
     mon.count("cycles", mon.cycle + 1)
     mon.bin("n_muxes", len(muxes))
     summary = {"kind": "diff", "aw": case["aw"], "dw": dw,
